@@ -44,7 +44,8 @@ def contexts(tier):
         out.append((Ctx(f"after-inner-block/probe{pi}", ["typedef", "int", "a", ";", "void", "y", "(", "void", ")", "{", "{"], ["}"] + pr + ["}"], domain=SMALL), 4 if q else 5))
         out.append((Ctx(f"params/probe{pi}", ["typedef", "int", "a", ";", "void", "y", "("], [")", "{"] + pr + ["}"] + pr[:0], domain=["int", "a", "b", "*", ",", "(", ")", "void", "[", "]"]), 4 if q else 5))
         out.append((Ctx(f"after-function/probe{pi}", ["typedef", "int", "a", ";", "void", "y", "(", "int", "a", ")", "{"], ["}", "int", "y", "(", "void", ")", "{"] + pr + ["}"], domain=SMALL), 3 if q else 4))
-    cls = {"?N": ["a", "b"], "?K": ["typedef", "int"], "?D": ["typedef int", "int"], "?S": ["struct", "union", "enum"]}
+    cls = {"?N": ["a", "b"], "?K": ["typedef", "int"], "?D": ["typedef int", "int"], "?S": ["struct", "union", "enum"],
+           "?T": ["enum { y }", "enum b { y , b }", "struct b { int y ; }", "union { a y ; }", "struct { enum { y } b ; }"]}
     pats = [
         # object / parameter / enumerator / tag / member / label declarations of a name that is a typedef outside
         "typedef int a ; void y ( void ) { int a ; { a * b ; } a * b ; } a * b ;",
@@ -97,6 +98,13 @@ def contexts(tier):
         "typedef int a ; void y ( int a , int ( * b ) ( int y [ a * 1 ] ) ) ; a * b ;",
         "typedef int a ; void y ( int ( * b ) ( int a ) , a * y ) ; a * b ;",
         "typedef int a ; void y ( ?K ?N , int y [ sizeof ( a ) ] ) ;",
+        # a struct / union / enum body met while the parser scans ahead for a declarator's name, or parsed twice
+        # (compound literal): the scope bookkeeping of its braces must not disturb the enclosing block
+        "typedef int a ; void y ( void ) { { void b ( int ( ?T y ) ) ; int a ; a = 1 ; } a * b ; }",
+        "typedef int a ; void b ( int ( ?T y ) ) ; void y ( void ) { { int a ; a = 1 ; } a * b ; }",
+        "typedef int a ; void y ( void ) { { b = ( ?T ) { 0 } ; int a ; a = 1 ; } a * b ; }",
+        "typedef int a ; void y ( void ) { { b = sizeof ( ?T ) + sizeof ( ?T ) { 0 } ; int a ; a = 1 ; } a * b ; }",
+        "typedef int a ; void y ( void ) { { int ( * b ) ( ?T ) , a ; a = 1 ; } a * b ; }",
         "typedef int a ; void y ( ?K ?N , int b [ sizeof ( a ) ] ) { a * b ; } a * b ;",
         "typedef int a ; void y ( int ( * b ) ( int a , int y [ sizeof ( a ) ] ) , a * y ) { a * y ; }",
     ]
